@@ -6,8 +6,9 @@
 -/
 import Purr.Lemmas.WalkL
 import Purr.Lemmas.BuilderL
+import Purr.Lemmas.RtcRing
 namespace Purr.C08
-open Purr
+open Purr Purr.Spec
 
 /-- the reader on any string, valid or not: the whole emitted history (up to the error) is conformant -/
 theorem reader_conformant (s : Str) : Conformant (read s).1 := by
@@ -49,6 +50,57 @@ theorem reader_never_panics_writer (s : Str) : (write? (read s).1).isSome := by
 theorem walker_never_panics_writer (g : Graph) : (write? (walk g).1).isSome := by
   have := conformant_writer_safe _ (walker_conformant g)
   simpa [write?] using this
+
+/-- on well-formed adjacency lists the traversal emits its join events in matched pairs, one on each atom of
+    the bond, with kinds that reconcile: driving the graph builder with the traversal's events ends with no
+    unmatched ring number (`BuildError.rnum`), no pair rejected as a self / duplicate / irreconcilable bond
+    (`BuildError.join`), and every bond of the graph — ring bonds included — recorded on both of its atoms
+    (`Relabelled`: node `pos ord x` lists exactly the bonds of `x`).  `walkRec` is the recursive formulation
+    of the traversal, compared with the real `walk` on every run. -/
+theorem walker_joins_paired (g : Graph) (hw : WellFormed g) (es : List (Event × Nat)) (ord : List Nat)
+    (h : walkRecL g = some (es, ord)) :
+    ∃ g', build? (es.map (·.1)) = some (.ok g') ∧ Relabelled g ord g' := by
+  obtain ⟨g', hb, hr, _, _⟩ := rtc g hw es ord h
+  exact ⟨g', hb, hr⟩
+
+/-- … and at the end of the traversal no ring number is left open in the pool's sense either: an opened
+    number with no closing partner would leave a placeholder, which `build` reports -/
+theorem unmatched_join_is_reported (s : BState) (n : Node) (e : Edge) (rid sid : Nat) (r : Rnum)
+    (hn : n ∈ s.graph) (he : e ∈ n.edges) (ht : e.target = .rnum rid sid r) (herr : s.errors = []) :
+    ∃ x, s.build = .error x := by
+  unfold BState.build
+  rw [herr]
+  simp only
+  have : ∀ (ns : List Node), n ∈ ns → ∃ x, buildNodes ns = .error x := by
+    intro ns
+    induction ns with
+    | nil => intro h; cases h
+    | cons m ms ih =>
+      intro hm
+      simp only [buildNodes]
+      rcases List.mem_cons.mp hm with rfl | hm'
+      · have : ∀ (es : List Edge), e ∈ es → ∃ x, nodeBonds es = .error x := by
+          intro es
+          induction es with
+          | nil => intro h; cases h
+          | cons f fs ih2 =>
+            intro hf
+            simp only [nodeBonds]
+            rcases List.mem_cons.mp hf with rfl | hf'
+            · rw [ht]; exact ⟨_, rfl⟩
+            · cases hft : f.target with
+              | rnum a b c => exact ⟨_, rfl⟩
+              | id t =>
+                obtain ⟨x, hx⟩ := ih2 hf'
+                simp only [hx]; exact ⟨x, rfl⟩
+        obtain ⟨x, hx⟩ := this n.edges he
+        rw [hx]; exact ⟨x, rfl⟩
+      · cases hnb : nodeBonds m.edges with
+        | error x => exact ⟨x, rfl⟩
+        | ok bs =>
+          obtain ⟨x, hx⟩ := ih hm'
+          simp only [hx]; exact ⟨x, rfl⟩
+  exact this s.graph hn
 
 /-! non-vacuity: `Conformant` accepts the history of `C(C)C` and rejects an over-deep pop -/
 example : Conformant [.root (.aliphatic .C), .extend .elided (.aliphatic .C), .pop 1, .extend .elided (.aliphatic .C)] := by decide
